@@ -225,6 +225,31 @@ def C12(rep, prog, tier):
         rep.only = None
 
 
+def _operator_inference_paths(rep, ex, table):
+    """(site, abstract paths) of `_inference` and of the recursive cores of every registered operator."""
+    cls = _class_of(table, ("p-entailment", None))
+    if cls:
+        pent.check(rep, ex, cls, strict=True, extended=True, floors=False)
+        yield f"inference/p_entailment.py:{cls.rsplit('.', 1)[1]}._inference", ex.cache.get((f"{cls}._inference", "pent"), [])
+    cls = _class_of(table, ("system-z", None))
+    if cls:
+        yield sysz.inference_entry(rep, ex, cls)
+    for key, name, lex in ((("system-w", False), "rc2", False), (("system-w", True), "z3", False),
+                           (("lex_inf", False), "rc2", True), (("lex_inf", True), "z3", True)):
+        cls = _class_of(table, key)
+        if cls:
+            be = mcsops.Backend(name, cls, lex=lex)
+            site, paths = mcsops.w_entry(rep, ex, be, strict=True, extended=True, prefix="LEX" if lex else "W", n_objects=2 if lex else 1)
+            yield site, paths
+            be.discover_query_slots(ex)
+            rsite = f"{site.rsplit('.', 1)[0]}._rec_inference"
+            yield rsite, ex.run(f"{cls}._rec_inference", be.rec_setup(), summaries=be.summaries(), key=f"{'lexrec' if lex else 'wrec'}-{name}", hooks=be.hooks())
+    cls = _class_of(table, ("c-inference", None))
+    if cls:
+        cinf.answer(rep, ex, cls)
+        yield f"inference/c_inference.py:{cls.rsplit('.', 1)[1]}._inference", ex.cache.get((f"{cls}._inference", "cinf"), [])
+
+
 def C13(rep, prog, tier):
     rep.explanation = ("C13: STATE.lifetime (operator attributes vs. epistemic state), ROWS.key and PAR.key (provenance of the keys "
                        "under which per-query results are stored and read), PAR.join (typestate of worker processes), "
@@ -234,6 +259,12 @@ def C13(rep, prog, tier):
     wrappers.state_lifetime(rep, ex)
     wrappers.rows(rep, ex)
     wrappers.refuse(rep, ex, rules=("PREPROC.once",))
+    rep.only = {"STATE.solver-per-query"}
+    try:
+        for site, paths in _operator_inference_paths(rep, ex, table):
+            wrappers.solver_per_query(rep, site, paths)
+    finally:
+        rep.only = None
     keep = {"CACHE.readonly", "QUERYSLOT.def-before-use"}
     rep.only = keep
     try:
@@ -283,7 +314,14 @@ def C14(rep, prog, tier):
     wrappers.rows(rep, ex, which=("single", "worker"), rules=("TIMEOUT.row",))
     wrappers.refuse(rep, ex, rules=("TIMEOUT.row", "TIMEOUT.flow", "PREPROC.once"))
     wrappers.refuse_manager(rep, ex, rules=("TIMEOUT.row",))
+    wrappers.preprocessing_timeout_rows(rep, ex)
     enum.loop(rep, ex, rules=("TIMEOUT.guarded-raise",))
+    rep.only = {"STATE.solver-per-query"}
+    try:
+        for site, paths in _operator_inference_paths(rep, ex, table):
+            wrappers.solver_per_query(rep, site, paths)
+    finally:
+        rep.only = None
 
 
 def C15(rep, prog, tier):
@@ -333,6 +371,9 @@ def C16(rep, prog, tier):
     preocf.rank_cache(rep, ex, preocf.ZP, "z_part2ocf")
     preocf.zrank_init(rep, ex)
     preocf.fact_builder_sibling(rep, ex)
+    # acceptance of a conditional by the ranking object goes through formula ranks
+    preocf.rank_min(rep, ex)
+    preocf.accept_decision(rep, ex)
     part.check_all(rep, ex, only=("inference.consistency_sat.consistency",))
 
 
@@ -346,6 +387,9 @@ def C17(rep, prog, tier):
         preocf.crep_rank(rep, ex, cls)
     preocf.rank_cache(rep, ex, preocf.CR, "c_vec2ocf", rule="CREP.cache")
     preocf.crep_init(rep, ex)
+    crev.solve(rep, ex)
+    preocf.rank_min(rep, ex)
+    preocf.accept_decision(rep, ex)
     cinf.encoding_relation(rep, ex)
     cinf.key_discipline(rep, ex)
     cinf.minima_encoding(rep, ex)
@@ -373,6 +417,7 @@ def C20(rep, prog, tier):
     ex = Explorer(prog, rep)
     preocf.save_restore(rep, ex)
     preocf.impacts_keys(rep, ex)
+    preocf.impacts_accept(rep, ex)
     preocf.format_agree(rep, ex)
 
 
@@ -383,6 +428,7 @@ def C10(rep, prog, tier):
     ex = Explorer(prog, rep)
     g, lit = parser_rules.grammar_rules(rep, ex)
     parser_rules.generated_parser(rep, ex, lit)
+    parser_rules.lexer_atn(rep, ex, g)
     parser_rules.visitor_meaning(rep, ex)
     parser_rules.reject(rep, ex, g)
 
